@@ -416,7 +416,7 @@ GoReuseVerdict(c) ==
   ELSE IF x.histerr # "" THEN <<>>
   ELSE IF (x.errR = "") # (x.errF = "") THEN <<"C17:the probe succeeds on one of reused/fresh instance and fails on the other">>
   ELSE IF c.sub.component = "iter"
-       THEN (IF x.errR = "" /\ ~SeqEquiv({"nan"}, Values(x.evF), Values(x.evR))
+       THEN (IF x.errR = "" /\ ~SeqEquiv({"nan", "anyorder"}, Values(x.evF), Values(x.evR))
              THEN <<"C17:reused iterator emits a different value than a fresh one">> ELSE <<>>)
             \o (IF x.errR = "" /\ CRun(x.evR).ok # CRun(x.evF).ok THEN <<"C17:reused iterator emits a differently formed stream than a fresh one">> ELSE <<>>)
        ELSE (IF x.errR = "" /\ x.rR # x.rF THEN <<"C17:reused unfolder builds a different value than a fresh one">> ELSE <<>>)
